@@ -88,7 +88,7 @@ struct Runner {
   std::vector<View> views;
   Hasher trace, chash;
   Outcome out;
-  Counters prev_counters;
+  Counters prev_counters, clear_baseline;
   Shape prev_shape;
   int focus = 0;
   int nthreads = 1;
@@ -294,19 +294,45 @@ struct Runner {
   }
 
   // ---- one step of the history ----------------------------------------------
+  // Known finding D1: once the key set needs a compressed path longer than 7 bytes the tree is mis-built, and nothing
+  // observed afterwards says anything about another property. Generated histories avoid such sets (except the C01 ones run
+  // in a forked child), but a shrunk candidate of the minimiser, or a history in which an injected fault made an insert
+  // fail, can drift into one: from that point on the history is not judged any more.
+  bool tainted = false;
+  // called before an insert (remove) that the model says will succeed: would the key set stay representable?
+  bool leaves_representable(const std::string& key, bool inserting) {
+    if constexpr (std::is_same_v<Key, unodb::key_view>) {
+      if (nonrep_fd >= 0 || tainted) return !tainted;
+      auto m2 = model;
+      if (inserting) m2[key]; else m2.erase(key);
+      if (!shape_of_map(m2).representable) tainted = true;
+    }
+    return !tainted;
+  }
+
   void exec(int g, const Op& o, int me) {
+    if (tainted) return;
     const bool hold_views = focus == 1 || focus == 0 || focus == 16;
     const Counters before = (focus == 10 || focus == 0) ? counters() : Counters{};
     switch (o.kind) {
       case S_INSERT: {
         const std::string val = make_value(static_cast<uint64_t>(o.a), static_cast<size_t>(o.b));
         const bool expect = !model.count(o.key);
+        if (expect && !leaves_representable(o.key, true)) return;
         if (nonrep_fd >= 0 && expect && !out.reached_nonrep) {
           auto m2 = model; m2[o.key] = val;
           if (!shape_of_map(m2).representable) { out.reached_nonrep = true; if (write(nonrep_fd, "N", 1) < 0) {} }
         }
         bool got;
         if (focus == 8) got = enumerate_faults("insert " + opname(g, o), false, [&] { return do_insert(o.key, val); });
+        else if (focus == 10 && o.c > 0) {
+          // one injected allocation failure: the operation may throw, after which everything (checked below) must be as before
+          arm_alloc_fault(static_cast<int>(o.c), false);
+          bool threw = false;
+          try { got = do_insert(o.key, val); } catch (const std::bad_alloc&) { threw = true; got = false; }
+          disarm_alloc_fault();
+          if (threw) { out.faults_delivered++; trace.add(2); break; }
+        }
         else got = do_insert(o.key, val);
         if (got != expect) die("insert-result", opname(g, o) + " returned " + (got ? "true" : "false") + ", the map model says " + (expect ? "true" : "false"));
         if (expect) model[o.key] = val;
@@ -315,6 +341,7 @@ struct Runner {
       }
       case S_REMOVE: {
         const bool expect = model.count(o.key) != 0;
+        if (expect && !leaves_representable(o.key, false)) return;
         if (nonrep_fd >= 0 && expect && !out.reached_nonrep) {
           auto m2 = model; m2.erase(o.key);
           if (!shape_of_map(m2).representable) { out.reached_nonrep = true; if (write(nonrep_fd, "N", 1) < 0) {} }
@@ -328,6 +355,13 @@ struct Runner {
         }
         bool got;
         if (focus == 8) got = enumerate_faults("remove " + opname(g, o), false, [&] { return do_remove(o.key); });
+        else if (focus == 10 && o.c > 0) {
+          arm_alloc_fault(static_cast<int>(o.c), false);
+          bool threw = false;
+          try { got = do_remove(o.key); } catch (const std::bad_alloc&) { threw = true; got = false; }
+          disarm_alloc_fault();
+          if (threw) { out.faults_delivered++; trace.add(2); break; }
+        }
         else got = do_remove(o.key);
         if (got != expect) die("remove-result", opname(g, o) + " returned " + (got ? "true" : "false") + ", the map model says " + (expect ? "true" : "false"));
         if (expect) { model.erase(o.key); if (at_once) drop_views_of_key(o.key); }
@@ -478,6 +512,14 @@ struct Runner {
     }
     if (k.splits < before.splits) die("counter-decreased", "the prefix split counter decreased" + at);
     out.splits += k.splits - before.splits;
+    if (o.kind == S_CLEAR) clear_baseline = k;  // clear() removes nodes without touching the counters
+    for (size_t i = 0; i < 4; i++) {
+      auto d = [&](const std::array<uint64_t, 4>& now, const std::array<uint64_t, 4>& base, size_t j) { return static_cast<int64_t>(now[j]) - static_cast<int64_t>(base[j]); };
+      const int64_t expect = d(k.grow, clear_baseline.grow, i) - d(k.shrink, clear_baseline.shrink, i) -
+                             (i < 3 ? d(k.grow, clear_baseline.grow, i + 1) - d(k.shrink, clear_baseline.shrink, i + 1) : 0);
+      if (expect != static_cast<int64_t>(k.nodes[i + 1]))
+        die("counter-conservation", "growth/shrink counters imply " + std::to_string(expect) + " inner nodes of class #" + std::to_string(i) + ", the index reports " + std::to_string(k.nodes[i + 1]) + at);
+    }
     if (o.kind != S_CLEAR) {
       const bool event = !(sh.inodes == prev_shape.inodes);
       if (moved != (event ? 1u : 0u))
@@ -603,6 +645,7 @@ struct Runner {
     views.clear();
     if constexpr (kind == 2) { unodb::this_thread().quiescent(); unodb::this_thread().quiescent(); }
     // final content check + accounting after quiescence
+    if (!tainted)
     for (auto& kv : model) {
       auto g = do_get(kv.first, 0, false);
       if (!g.has_value() || *g != kv.second) die("final-content", "entry " + hex(kv.first) + " lost or altered at the end of the history");
@@ -610,7 +653,7 @@ struct Runner {
 #ifdef UNODB_DETAIL_WITH_STATS
     {
       const Shape sh = shape_of_map(model);
-      if (sh.representable) {
+      if (sh.representable && !tainted) {
         int nb = 0;
         const size_t held = live_bytes(&nb);
         if (held != db->get_current_memory_use())
@@ -627,7 +670,11 @@ struct Runner {
     dbp.reset();
     int nb = 0;
     const size_t bytes = live_bytes(&nb);
-    if (nb != 0) die("leak", std::to_string(nb) + " blocks (" + std::to_string(bytes) + " bytes) still allocated after the index was destroyed");
+    if (nb != 0 && !tainted) die("leak", std::to_string(nb) + " blocks (" + std::to_string(bytes) + " bytes) still allocated after the index was destroyed");
+    if (tainted) {  // whatever the mis-built tree left behind must not leak into the next run's ledger
+      ledger_forget_all();
+      out.reached_nonrep = true;
+    }
     out.trace_hash = trace.h;
     out.counters_hash = chash.h;
   }
